@@ -73,7 +73,10 @@ var retryableErrs []error = []error{
 	context.DeadlineExceeded,
 }
 
-var errorStrMap map[string]error = map[string]error{}
+var errorStrMap map[string]error = map[string]error{
+	// a deadline that expired at the remote node is as retryable for the caller as a local one
+	context.DeadlineExceeded.Error(): context.DeadlineExceeded,
+}
 
 func errorDef(str string, retryable bool) error {
 	err := &Error{
